@@ -757,8 +757,10 @@ Section Main.
 
   (* ---------- IN (subquery) ---------- *)
 
-  Lemma in_candidate_rval r : in_candidate (RVal r) = sub_column r.
-  Proof. destruct r as [| | | | |[|[k v] [|]]]; reflexivity. Qed.
+  (* wherever the specification answers (a scalar, or a single-column row) the model agrees; on a row of several
+     columns the model follows the code (first column in key order) and the specification stays silent *)
+  Lemma in_candidate_rval r v : sub_column r = Ok v -> in_candidate (RVal r) = Ok v.
+  Proof. destruct r as [| | | | |[|[k w] [|]]]; cbn; intro H; try exact H; discriminate. Qed.
 
   Lemma in_list_member lv : forall rs cols,
     mapM sub_column rs = Ok cols ->
@@ -769,7 +771,7 @@ Section Main.
     - inversion Hm. reflexivity.
     - apply bind_ok7 in Hm. destruct Hm as (c0 & Hc0 & Hm).
       apply bind_ok7 in Hm. destruct Hm as (cs & Hcs & Hm). inversion Hm; subst cols.
-      cbn [map in_list]. rewrite in_candidate_rval, Hc0. cbn [bind].
+      cbn [map in_list]. rewrite (in_candidate_rval _ _ Hc0). cbn [bind].
       destruct (Hc c0 (or_introl eq_refl)) as (z & Hz). rewrite Hz. cbn [bind].
       unfold member_sem. cbn [existsb]. rewrite Hz.
       destruct z; cbn [Z.eqb orb]; try reflexivity;
